@@ -102,15 +102,16 @@ if __name__ == "__main__":
         print(json.dumps(check(sys.argv[2], pids), indent=1))
 
 
-def keep(d, v, pid, needs, all_props=False):
-    """confirm + check + store under /verif/seeded/<pid><v>/"""
+def keep(d, v, pid, needs, all_props=False, as_v=None, rnd=1):
+    """confirm + check + store under /verif/seeded/<pid><as_v or v>/"""
     c = confirm(d, v)
     if not c.get("confirmed"):
         print("NOT CONFIRMED", json.dumps(c, indent=1))
         return 1
     pids = ["C%02d" % i for i in range(1, 21)]
     res = check(os.path.join(d, "patch_%s.diff" % v), pids)
-    out = os.path.join(VERIF, "seeded", "%s%s" % (pid, v))
+    sv = as_v or v
+    out = os.path.join(VERIF, "seeded", "%s%s" % (pid, sv))
     os.makedirs(out, exist_ok=True)
     shutil.copy(os.path.join(d, "patch_%s.diff" % v), os.path.join(out, "patch.diff"))
     shutil.copy(os.path.join(d, "demo_%s.py" % v), os.path.join(out, "demo.py"))
@@ -118,7 +119,7 @@ def keep(d, v, pid, needs, all_props=False):
     if os.path.exists(notes):
         shutil.copy(notes, os.path.join(out, "notes.md"))
     own = res.get(pid, {})
-    meta = {"id": "%s%s" % (pid, v), "breaks_property": pid, "needs_to_manifest": needs,
+    meta = {"id": "%s%s" % (pid, sv), "round": rnd, "breaks_property": pid, "needs_to_manifest": needs,
             "what_was_run": {"suite_with_change": c["suite"], "demo_with_change_exit": c["demo_with_change_rc"],
                              "demo_on_clean_tree_exit": c["demo_clean_rc"],
                              "commands": ["git apply patch.diff (scratch worktree of /repo); setup.py build_ext --inplace",
@@ -128,14 +129,20 @@ def keep(d, v, pid, needs, all_props=False):
             "other_properties_that_fire": {k: r["fired"] for k, r in res.items() if k != pid and r.get("rc") == 1},
             "analysis_errors": {k: r["err"] for k, r in res.items() if r.get("rc") == 2},
             "origin": "independent sub-agent given only the property text and a scratch worktree"}
+    meta["when_first_seen"] = {"caught_by_own_property_check": meta["caught_by_own_property_check"],
+                               "rules_fired_own_property": meta["rules_fired_own_property"],
+                               "other_properties_that_fire": meta["other_properties_that_fire"],
+                               "analysis_errors": meta["analysis_errors"]}
     json.dump(meta, open(os.path.join(out, "meta.json"), "w"), indent=1)
-    print(pid + v, "caught" if meta["caught_by_own_property_check"] else "MISSED", meta["rules_fired_own_property"],
+    print(pid + sv, "caught" if meta["caught_by_own_property_check"] else "MISSED", meta["rules_fired_own_property"],
           "others:", meta["other_properties_that_fire"], "errors:", meta["analysis_errors"])
     return 0
 
 
 if __name__ == "__main__" and sys.argv[1] == "keep":
     sys.exit(keep(sys.argv[2], sys.argv[3], sys.argv[4], sys.argv[5]))
+if __name__ == "__main__" and sys.argv[1] == "keep2":     # round 2: variants a, b stored as c, d
+    sys.exit(keep(sys.argv[2], sys.argv[3], sys.argv[4], sys.argv[5], as_v={"a": "c", "b": "d"}[sys.argv[3]], rnd=2))
 
 
 def refcheck(d):
